@@ -1,5 +1,6 @@
 import re
 from collections import defaultdict
+from copy import copy
 from itertools import count
 from typing import Dict, Iterable, List, Optional, Set, Tuple, Union
 
@@ -559,6 +560,19 @@ for index in [2, 3, 4, 5]:
     _REPLACE_CONSTANTS_EXCEPTION.append((GenericInstr.MEAS_BASIS, index))
 
 
+def _private_copy(command: ICmd) -> ICmd:
+    """A copy of a command that shares no mutable object with the original"""
+    return ICmd(
+        instruction=command.instruction,
+        args=list(command.args),
+        operands=[
+            copy(operand) if isinstance(operand, (ArrayEntry, ArraySlice)) else operand
+            for operand in command.operands
+        ],
+        lineno=command.lineno,
+    )
+
+
 def _replace_constants(
     commands: List[Union[ICmd, BranchLabel]],
     reserved_registers: Optional[Iterable[Register]] = None,
@@ -590,6 +604,10 @@ def _replace_constants(
         if not isinstance(command, ICmd):
             i += 1
             continue
+        # Constants are replaced in a private copy of the command: the same ICmd,
+        # operands list or ArrayEntry/ArraySlice object may occur several times in the
+        # IR, and every occurrence needs its own `set` instructions.
+        command = commands[i] = _private_copy(command)
         tmp_registers: List[Register] = []
         for j, operand in enumerate(command.operands):
             if (
